@@ -19,6 +19,8 @@ pub enum Profile {
     Regrow,
     Growexp,
     Expnext,
+    Lateread,
+    Aging,
 }
 
 pub const PROFILES: [Profile; 8] = [
@@ -48,6 +50,8 @@ impl Profile {
             "regrow" => Self::Regrow,
             "growexp" => Self::Growexp,
             "expnext" => Self::Expnext,
+            "lateread" => Self::Lateread,
+            "aging" => Self::Aging,
             _ => return None,
         })
     }
@@ -66,6 +70,8 @@ impl Profile {
             Self::Regrow => "regrow",
             Self::Growexp => "growexp",
             Self::Expnext => "expnext",
+            Self::Lateread => "lateread",
+            Self::Aging => "aging",
         }
     }
 }
@@ -112,6 +118,7 @@ pub fn gen_cfg(rng: &mut Rng, kind: &'static str, profile: Profile, capmode: &st
         Profile::Scan => Some(rng.pick(&[2u64, 3, 4, 5, 8])),
         Profile::Oversize => Some(rng.pick(&[1u64, 2, 3, 5, 8, 10])),
         Profile::Growexp => Some(rng.pick(&[6u64, 8, 10, 12, 16])),
+        Profile::Aging => Some(rng.pick(&[10u64, 20, 30])),
         _ => match rng.below(12) {
             0 => None,
             1 => Some(0),
@@ -134,6 +141,7 @@ pub fn gen_cfg(rng: &mut Rng, kind: &'static str, profile: Profile, capmode: &st
             WeigherKind::Val,
         ]),
         Profile::Big => WeigherKind::None,
+        Profile::Aging => rng.pick(&[WeigherKind::Const(2), WeigherKind::None, WeigherKind::Const(2)]),
         Profile::Batch => {
             if rng.chance(1, 3) { WeigherKind::Val } else { WeigherKind::None }
         }
@@ -162,7 +170,12 @@ pub fn gen_cfg(rng: &mut Rng, kind: &'static str, profile: Profile, capmode: &st
             2 => (Some(SEC), Some(3 * SEC)),
             _ => (Some(3 * SEC), Some(SEC)),
         },
-        Profile::Regrow => (None, None),
+        Profile::Regrow | Profile::Aging => (None, None),
+        Profile::Lateread => match rng.below(3) {
+            0 => (None, Some(rng.pick(&[SEC, 3 * SEC]))),
+            1 => (Some(10 * SEC), Some(rng.pick(&[SEC, 3 * SEC]))),
+            _ => (Some(3 * SEC), Some(SEC)),
+        },
         Profile::Expnext => match rng.below(4) {
             0 => (None, None),
             1 => (Some(rng.pick(&[SEC, 3 * SEC])), None),
@@ -204,7 +217,9 @@ pub fn gen_case(seed: u64, kind: &'static str, profile: Profile, len: usize, whi
         // `initial_capacity` (C17: no observable effect) from an independent stream, so that the
         // histories of a seed are the same with and without it
         let mut r2 = Rng::new(splitmix(seed ^ 0x1ca9_ac17));
-        if r2.chance(1, 3) {
+        if profile == Profile::Aging {
+            cfg.initcap = Some(r2.pick(&[1000u64, 200, 5000]));
+        } else if r2.chance(1, 3) {
             let c = cfg.cap.unwrap_or(16).min(100_000);
             cfg.initcap = Some(r2.pick(&[0, 1, c / 2, c / 2 + 1, c, c.saturating_mul(4), 1000]));
         }
@@ -265,6 +280,114 @@ pub fn gen_case(seed: u64, kind: &'static str, profile: Profile, len: usize, whi
                 }
                 14 => out.push(format!("adv {}", rng.pick(&[1u64, 100_000_000, 600_000_000]))),
                 _ => push(&mut out, format!("ins {} {}", rng.below(nkeys), rng.below(3))),
+            }
+        }
+        if sync {
+            out.push("sync".into());
+            out.push("snap".into());
+        }
+        out.push("iter".into());
+        out.push("drop".into());
+        return out;
+    }
+    if profile == Profile::Aging {
+        // More lookups than one aging period of the minimal sketch (10 x 128 increments): a full
+        // cache, a resident read a few times and then left to become the eviction candidate, well
+        // over a thousand lookups of absent keys, then a newcomer read about as often as that
+        // resident was, and its insert: whether it is admitted depends on the aging of the sketch.
+        let c = cfg.cap.unwrap_or(20);
+        let per = if cfg.weigher == WeigherKind::None { 1 } else { 2 };
+        let nres = (c / per).max(2);
+        for i in 0..nres {
+            out.push(format!("ins {} {}", i, i % 7));
+        }
+        if sync {
+            out.push("sync".into());
+        }
+        let r = 4 + rng.below(5);
+        for _ in 0..r {
+            out.push(format!("get {}", 0));
+        }
+        for i in 1..nres {
+            out.push(format!("get {}", i));
+        }
+        if sync {
+            out.push("sync".into());
+        }
+        out.push("snap".into());
+        let misses = 1250 + rng.below(400);
+        for i in 0..misses {
+            out.push(format!("get {}", 100_000 + i % 977));
+            if sync && i % 50 == 49 {
+                out.push("sync".into());
+            }
+        }
+        out.push("snap".into());
+        let cand = 5000 + rng.below(5);
+        let cr = r - rng.below(3);
+        for _ in 0..cr {
+            out.push(format!("get {}", cand));
+        }
+        if sync {
+            out.push("sync".into());
+        }
+        if white_box {
+            out.push(format!("freq {}", cand));
+        }
+        push(&mut out, format!("ins {} 1", cand));
+        if sync {
+            push(&mut out, "sync".into());
+        }
+        push(&mut out, format!("get {}", cand));
+        push(&mut out, format!("get {}", 0));
+        out.push("iter".into());
+        out.push("drop".into());
+        return out;
+    }
+    if profile == Profile::Lateread {
+        // A hit recorded shortly before the idle deadline and still waiting to be applied when the
+        // ORIGINAL deadline passes (the concurrent cache applies reads at the next maintenance; the
+        // single-threaded one at once): in that window the entry looks expired although the
+        // recorded read will revive it. Then an invalidation, lookup, update or iteration of that
+        // key, then maintenance, then lookups.
+        let tti = cfg.tti.unwrap_or(SEC);
+        let rounds = 2 + len / 12;
+        for _ in 0..rounds {
+            let k = rng.below(nkeys);
+            if white_box {
+                out.push(format!("freq {}", k));
+            }
+            push(&mut out, format!("ins {} {}", k, rng.below(12)));
+            if sync && rng.chance(3, 4) {
+                push(&mut out, "sync".into());
+            }
+            // leave the housekeeping window, then go to just before the deadline
+            out.push("adv 600000000".into());
+            let before = rng.pick(&[1u64, 1000, 100_000_000]);
+            out.push(format!("adv {}", tti - 600_000_000 - before));
+            push(&mut out, format!("get {}", k));
+            let after = rng.pick(&[0u64, 1, 1000, 200_000_000]);
+            out.push(format!("adv {}", before + after));
+            if white_box {
+                out.push("snap".into());
+            }
+            match rng.below(7) {
+                0 | 1 => push(&mut out, format!("inv {}", k)),
+                2 => push(&mut out, format!("has {}", k)),
+                3 => push(&mut out, format!("get {}", k)),
+                4 => push(&mut out, format!("ins {} {}", k, rng.below(12))),
+                5 => push(&mut out, "iter".into()),
+                _ => push(&mut out, format!("ins {} 1", nkeys + rng.below(3))),
+            }
+            if sync {
+                push(&mut out, "sync".into());
+            }
+            push(&mut out, format!("get {}", k));
+            push(&mut out, format!("has {}", k));
+            push(&mut out, "iter".into());
+            if rng.chance(1, 2) {
+                out.push(format!("adv {}", rng.pick(&[tti / 2, tti])));
+                push(&mut out, format!("get {}", k));
             }
         }
         if sync {
@@ -402,6 +525,51 @@ pub fn gen_case(seed: u64, kind: &'static str, profile: Profile, len: usize, whi
         out.push("drop".into());
         return out;
     }
+    if profile == Profile::Regrow && rng.chance(1, 2) {
+        // Variant: the admission contest happens exactly when the number of entries passes the
+        // length of the sketch table (128 slots, sized while the cache held five heavy entries):
+        // five heavy entries, lookups of a key that is not resident, light entries until the cache
+        // is full with 129 entries, then the popular key is inserted.
+        let wh = 40 + rng.below(200);
+        let extra = rng.below(3); // 129, 130 or 131 entries at the contest
+        let c = 5 * wh + 124 + extra;
+        cfg.cap = Some(c);
+        out[0] = cfg.line(seed, profile);
+        for i in 0..5 {
+            push(&mut out, format!("ins {} {}", 1000 + i, wh));
+        }
+        if sync {
+            out.push("sync".into());
+        }
+        let hotk = 7000 + rng.below(3);
+        for _ in 0..(3 + rng.below(6)) {
+            out.push(format!("get {}", hotk));
+        }
+        if sync {
+            out.push("sync".into());
+        }
+        for i in 0..(124 + extra) {
+            out.push(format!("ins {} 1", 2000 + i));
+            if sync && i % 40 == 39 {
+                out.push("sync".into());
+            }
+        }
+        if sync {
+            out.push("sync".into());
+        }
+        out.push("snap".into());
+        if white_box {
+            out.push(format!("freq {}", hotk));
+        }
+        push(&mut out, format!("ins {} 1", hotk));
+        if sync {
+            push(&mut out, "sync".into());
+        }
+        push(&mut out, format!("get {}", hotk));
+        out.push("iter".into());
+        out.push("drop".into());
+        return out;
+    }
     if profile == Profile::Regrow {
         // A weighted cache whose popularity sketch is sized while it holds a few heavy entries and
         // which then holds hundreds of light ones: lookups recorded early must still count later.
@@ -535,7 +703,7 @@ pub fn gen_case(seed: u64, kind: &'static str, profile: Profile, len: usize, whi
                 Profile::Churn => (38, 14, 4, 2, 24, 3, 3, 6, 6),
                 Profile::Growth => (50, 18, 4, 3, 6, 1, 2, 8, 8),
                 Profile::Scan => (40, 45, 2, 1, 3, 0, 0, 6, 3),
-                Profile::Big | Profile::Batch | Profile::Oversize | Profile::Regrow | Profile::Growexp | Profile::Expnext => (55, 20, 2, 1, 8, 1, 1, 2, 10),
+                Profile::Big | Profile::Batch | Profile::Oversize | Profile::Regrow | Profile::Growexp | Profile::Expnext | Profile::Lateread | Profile::Aging => (55, 20, 2, 1, 8, 1, 1, 2, 10),
             };
         let mut acc = 0;
         let mut pick = |p: u64| { acc += p; r < acc };
@@ -748,6 +916,29 @@ pub fn gen_inject(seed: u64, profile: Profile, len: usize) -> Vec<String> {
                   "pins 0 2 2", "penq 0", "maint", "snap", "pget 1 0", "penq 1", "pget 1 1", "penq 1",
                   "pget 1 2", "penq 1", "snap"] {
             out.push(l.to_string());
+        }
+    }
+    {
+        // motif (a quarter of the cases, independent stream): `invalidate_all` calls whose clock
+        // reading and store are separated by other threads' inserts and invalidate_all calls at
+        // later readings (injected at the clock-read hook), each followed by lookups of every key
+        let mut r3 = Rng::new(splitmix(seed ^ 0x0d12_0d12));
+        if r3.chance(1, 4) {
+            for _ in 0..(2 + r3.below(4)) {
+                let k = r3.below(nkeys);
+                out.push(format!("pins 0 {} {}", k, r3.below(12)));
+                out.push("penq 0".into());
+                if r3.chance(1, 2) {
+                    out.push("maint".into());
+                }
+                out.push(format!("adv {}", r3.pick(&[1000u64, 100_000_000])));
+                out.push("invall".into());
+                for kk in 0..nkeys {
+                    out.push(format!("pget 1 {}", kk));
+                    out.push("penq 1".into());
+                }
+                out.push("snap".into());
+            }
         }
     }
     for _ in 0..len {
